@@ -64,7 +64,6 @@ def consistent(conds):
     for t, pol in conds:
         t, pol = au.strip_not(t, pol)
         if isinstance(t, ast.BoolOp):
-            vals = [seen.get(au.canon_test(*au.strip_not(v, True)[:1], True)) if False else None for v in t.values]
             known = []
             for v in t.values:
                 vv, vp = au.strip_not(v, True)
